@@ -384,6 +384,9 @@ fn unequal_copy(src: &mut Src, v: &J) -> Option<J> {
 fn random_deep(src: &mut Src, obs: &mut Obs) -> Res {
     let mut cfg = GenCfg::plain();
     cfg.max_depth = 4;
+    // member names of the compared values may be anything (quotes at the ends, backslashes, controls):
+    // they are never written in the query
+    cfg.special_keys = true;
     let d = 1 + src.below(4);
     let a = gen_value(src, d, &cfg);
     let (b, expect_eq) = if src.bool() {
